@@ -53,7 +53,19 @@ def main():
         run.only = (f['rule'], f['function'], f['instance'])
     try:
         loader = Loader(run)
-        mod.run(run, tier, loader)
+        try:
+            mod.run(run, tier, loader)
+        except factsmod.ExtractionError:
+            raise
+        except Exception as e:
+            # A rule met a construct its matcher cannot digest (only ever seen on trees that differ from the reference).
+            # Fail closed: the property was not established for this tree, and say where the checker stopped.
+            tb = traceback.extract_tb(e.__traceback__)
+            at = next(('%s:%d in %s' % (os.path.basename(f.filename), f.lineno, f.name) for f in reversed(tb) if '/rules/' in f.filename), 'rule code')
+            traceback.print_exc()
+            run.unproven('checker.unanalysable', '<%s rules>' % a.prop, 'all',
+                         'the rules of %s could not analyse this tree (%s: %s at %s); the instances recorded before that point stand, '
+                         'the remaining ones were not evaluated' % (a.prop, type(e).__name__, str(e)[:200], at))
         import deps
         deps.apply(run, a.prop, tier, loader)
         import equiv
